@@ -12,20 +12,25 @@ M3: Trace_GeodConstr validates every observation: saved trees against TreeValid,
     lattice intersections exactly (sets of admissible answers), and seeded random law records for the three projections
     (definitions, azimuth/scale of the underlying geodesic, both round trips), Closest/Next/Segment/All on ellipsoids
     (on both lines, L1-minimality against All, segment and coincidence indicators, sorted/once/complete) and
-    NearestNeighbor with the geodesic metric (doubles replaced by ranks)."""
+    NearestNeighbor with the geodesic metric (doubles replaced by ranks).  Trace_ProjObject follows the replay of every
+    object history statefully (Init / centre after each constructor and Reset, exact Forward / Reverse values for the centre the
+    SPEC has reached, bit-for-bit equality with a freshly constructed object, overloads, uninitialised object)."""
 import vlib
 
 LEVEL = 'model_checking'
 LEVEL_TEXT = ('Exact TLA+ models: (a) nearest-neighbour search as a brute-force specification refined by a model of the '
               'vantage-point tree and its pruned priority-queue search, model-checked on all valid trees over small point '
               'sets for all queries and queue orders; (b) intersections of lattice great circles on the unit-degree sphere '
-              '(integer displacement lattice, L1 argmin sets, segment and coincidence indicators, All). TLC enumerates the '
+              '(integer displacement lattice, L1 argmin sets, segment and coincidence indicators, All; coincident circles for '
+              'Closest, Next and Segment, also on eccentric ellipsoids along the equator); (c) the projection objects as a state '
+              'machine whose only state is the centre set by the last Reset, with exact integer Cassini-Soldner / azimuthal '
+              'equidistant / gnomonic values on the unit-degree sphere, explored over all histories constructor ; Reset^n. TLC enumerates the '
               'instances, checks the model invariants, every vector is replayed on the real code and TLC validates each '
               'observation (saved tree = TreeValid, search = brute force, intersections = admissible set). Projection '
               'definitions, round trips and ellipsoidal intersection laws are validated on seeded random samples with '
               'documented tolerances.')
 DESIGN_REF = 'DESIGN.md section 4, C17'
-LEVEL_NOTE = ('Trusted: TLC, NearestNeighbor.tla / IntersectLattice.tla / GeodProjLaws.tla / IntersectLaws.tla (from the headers and '
+LEVEL_NOTE = ('Trusted: TLC, NearestNeighbor.tla / IntersectLattice.tla / ProjLattice.tla / ProjObject.tla / GeodProjLaws.tla / IntersectLaws.tla (from the headers and '
               'man pages), SphereLattice.tla, the driver\'s residual quantisation (3-D chord, crossing angle). On ellipsoids the '
               'completeness of Intersect::All is decided only relationally (smaller radius, Closest, Next chain), not against '
               'an independent enumeration of all intersections; the geodesic values themselves are the business of C01-C03.')
@@ -52,30 +57,73 @@ def to_rows(vals):
             rows.append(['nnt', v[1], v[2], len(v[3])] + list(v[3]))
         elif k == 'nns':      # nns metric bucket q k maxd mind exh tol n p1..pn
             rows.append(['nns', v[1], v[2], v[3], v[4], v[5], v[6], 1 if v[7] else 0, v[8], len(v[9])] + list(v[9]))
-        elif k in ('ic', 'ia', 'in'):   # kind incA nodeA sA incB nodeB sB lat.. p0x p0y maxd
-            rows.append([k] + _flat([v[1], v[2], v[3], v[4], v[5], v[6], v[7]]))
-        elif k == 'is':       # is incA nodeA sA lenA incB nodeB sB lenB lat/lon x 4
-            rows.append(['is'] + _flat([v[1], v[2], v[3], v[4], v[5], v[6], v[7]]))
+        elif k in ('ic', 'ia', 'in'):   # kind incA nodeA sA incB nodeB sB lat.. p0x p0y maxd ell
+            rows.append([k] + _flat([v[1], v[2], v[3], v[4], v[5], v[6], v[7], v[8]]))
+        elif k == 'is':       # is incA nodeA sA lenA incB nodeB sB lenB lat/lon x 4 ell
+            rows.append(['is'] + _flat([v[1], v[2], v[3], v[4], v[5], v[6], v[7], v[8]]))
+        elif k == 'nv':       # nv ell lat lon azi c
+            rows.append(['nv'] + list(v[1:6]))
     return rows
+
+
+OBJ_CFG = 'INIT Init\nNEXT Next\nCONSTANTS Depth = %d\nINVARIANTS HistoryFree OracleInv Emit\nCHECK_DEADLOCK FALSE\n'
+
+
+def obj_rows(vals):
+    rows = []
+    for v in vals:
+        if v[0] != 'ph':
+            continue
+        row = ['ph', v[1], len(v[2])] + _flat(v[2])
+        for part in v[3:7]:
+            row += [len(part)] + _flat(part)
+        rows.append(row)
+    return rows
+
+
+def object_stage(ctx):
+    """Projection objects as a state machine: TLC explores every history constructor ; Reset^n (n <= Depth) over the lattice
+    centres (MC_ProjObject: HistoryFree, oracle consistency), each history is replayed on ONE real CassiniSoldner object (plus
+    AzimuthalEquidistant / Gnomonic objects that live for the whole replay) and Trace_ProjObject follows the replay statefully."""
+    cfg = ctx.cfg('MC_ProjObject', OBJ_CFG % (2 if ctx.quick else 3))
+    vals = ctx.generate('MC_ProjObject', cfg, workers=max(2, vlib.NCPU // 4), timeout=3000, heap='4g')
+    rows = obj_rows(vals)
+    if len(rows) < 100:
+        raise vlib.FrameworkError('too few object histories emitted: %d' % len(rows))
+    vin = ctx.path('histories.txt')
+    vlib.write_lines(vin, rows)
+    ctx.cov['behaviours_replayed'] += len(rows)
+    ctx.cov['distinct_nontrivial'] += len(rows)
+    exe = vlib.build_driver('drv_constr', 'plain' if ctx.quick else 'san')
+    trace = ctx.path('trace-obj.ndjson')
+    rc, err = ctx.drive(exe, ['replayobj'], infile=vin, outfile=trace)
+    if rc != 0:
+        ctx.violation('driver crashed replaying object histories (rc=%d): %s' % (rc, err[-600:]),
+                      [{'e': 'ReplayHeader', 'property': ctx.pid, 'law': 'no-crash', 'histories': vin}])
+        return
+    n, rej = ctx.validate('Trace_ProjObject', 'Trace_ProjObject', trace, shards=vlib.NCPU, group_key='Reset')
+    ctx.cov['traces_validated_against_impl'] += 1
+    ctx.report_rejects(rej, trace)
 
 
 def run(ctx):
     q = ctx.quick
     base = ('INIT Init\nNEXT Next\nCONSTANTS Part = "%s" NChunks = 64 NNMax = %d NNRange = %d NNGrid = %d NQ = %d NNDeep = %s '
-            'NodeStep = %d IxThin = %d\nINVARIANTS %s\nCHECK_DEADLOCK FALSE\n')
+            'NodeStep = %d IxThin = %d Ells = {0, 1, 2, 3, 4}\nINVARIANTS %s\nCHECK_DEADLOCK FALSE\n')
     parts = [
         ('nn', base % ((('nn', 5, 5, 3, 4, 'FALSE', 45, 60) if q else ('nn', 6, 6, 4, 12, 'TRUE', 30, 6)) + ('NNInv Emit',))),
         ('ix', base % ((('ix', 5, 5, 3, 4, 'FALSE', 45, 60) if q else ('ix', 6, 6, 4, 12, 'TRUE', 30, 6)) + ('IXInv SegInv Emit',))),
     ]
     # the model of the search on every valid tree (no vectors)
     nnm = base % ((('nnm', 4, 4, 2, 1, 'FALSE', 45, 60) if q else ('nnm', 5, 5, 3, 1, 'TRUE', 45, 60)) + ('NNModelInv',))
-    nrec = 40000 if q else 300000
+    nrec = 50000 if q else 375000
     import concurrent.futures as cf
     with cf.ThreadPoolExecutor(1) as ex:
         fut = ex.submit(ctx.model_check, 'MC_GeodConstr', ctx.cfg('MC_GeodConstr_nnm', nnm), None,
                         max(2, vlib.NCPU // 3), 3000, 100)
         vlib.lattice_pipeline(ctx, 'MC_GeodConstr', parts, to_rows, 'drv_constr', ['replay'], ['record', ctx.seed, nrec],
                               'Trace_GeodConstr', flavour_record=None if q else 'san', gen_workers=max(2, vlib.NCPU // 3))
+        object_stage(ctx)
         fut.result()
     ctx.cov['exhaustive'] = False
     return ctx.finish(RULE, TRUSTED)
@@ -86,9 +134,14 @@ RULE = ('vectors enumerated by TLC from MC_GeodConstr: NearestNeighbor<int,int,m
         'orders, bucket in {0,1,2,4}, each with its saved tree and sampled searches (query, k, maxdist, mindist, exhaustive, tol); '
         'pairs of lattice great circles (equator, meridians, obliques 30/45/60/120/135/150 with nodes every 45 (30) degrees) whose '
         'intersections are lattice positions x starting arcs x origins x radii for Closest, Next, Segment, All, plus coincident '
-        'equator/meridian pairs; plus seeded random law records (projections, intersections, nearest neighbour). '
+        'equator/meridian pairs (Closest, Next, Segment; the equator also on a = 180/pi, f = 0.1, -0.1, 0.2, -0.25 with the exact solver) '
+        'and Next on one geodesic taken twice from a vertex at every integer latitude; every history constructor ; Reset^n (n <= 2, '
+        'thorough 3) of a CassiniSoldner object over 8 lattice centres with 13-17 Forward and 11 Reverse probes of the final state plus '
+        'azimuthal equidistant / gnomonic probes on the central meridian; plus seeded random law records (projections incl. overload / '
+        'default-argument / history agreement, intersections incl. exactly coincident segments, coincident Next at vertices, tie origins; '
+        'nearest neighbour incl. the object histories). '
         'The search model (part nnm) is checked on all valid trees over <= 4 (5) points. distinct_nontrivial = distinct lattice vectors.')
-TRUSTED = ['TLC', 'NearestNeighbor.tla', 'IntersectLattice.tla', 'SphereLattice.tla', 'GeodProjLaws.tla', 'IntersectLaws.tla',
+TRUSTED = ['TLC', 'NearestNeighbor.tla', 'IntersectLattice.tla', 'SphereLattice.tla', 'ProjLattice.tla', 'ProjObject.tla', 'GeodProjLaws.tla', 'IntersectLaws.tla',
            'drv_constr.cpp (nanometre quantisation, 3-D chord and crossing angle, rank transform of doubles, textbook constructions)']
 
 
